@@ -1,2 +1,42 @@
-(* C04 placeholder: statements follow with Model/StackProto.v *)
-From RT Require Import Model.StackTrace.
+(* C04 -- the stack is a linearizable transactional store.  Statements only.
+   [trace_of] = the observable trace of the protocol model (Model/StackProto.v)
+   for any initial directory, any scripts, any schedule (interleaving at the
+   granularity of single file-system operations, crashes included), any table
+   sizes (auto-compaction decisions) and any bound on reload retries.
+   [c04_ok] (Model/StackTrace.v): after EVERY file-system operation the
+   transactions held by the tables that tables.list names, in list order, are
+   exactly the initial ones followed by the committed ones in commit order
+   (nothing lost, duplicated, reordered or altered by additions, compactions,
+   reloads, Close); Add returns success exactly when its transaction was
+   committed during the call; the only failures are lock contention and
+   rejection of the transaction's own content. *)
+From Coq Require Import List NArith Arith Bool.
+From RT Require Import Model.StackTrace Model.StackProto Proofs.StackInvProofs.
+Import ListNotations.
+
+Theorem C04_linearizable : forall size_oracle attempts tabs scripts sched,
+  init_ok tabs -> Forall (fun s => forallb modelled s = true) scripts ->
+  c04_ok (trace_of size_oracle attempts tabs scripts sched) = true.
+Proof. exact c04_all_traces. Qed.
+Print Assumptions C04_linearizable.
+
+(* non-vacuity: the schedule on which the pinned tree lost an update (a
+   compaction that released the list lock, an Add committing meanwhile, the
+   compaction then committing) run through the model *)
+Local Open Scope N_scope.
+Definition c04_tabs : list (nat * tfile) :=
+  [(0%nat, {| tf_min := 1; tf_max := 1; tf_txs := [100%nat]; tf_size := 100 |});
+   (1%nat, {| tf_min := 2; tf_max := 2; tf_txs := [101%nat]; tf_size := 100 |})].
+Definition c04_sched : list sched_item :=
+  (* h0: open, then CompactAll up to the point where it has released the list lock and made its temp file *)
+  map (fun _ => Step 0 None) (seq 0 10) ++
+  (* h1: open and a complete Add *)
+  map (fun _ => Step 1 None) (seq 0 14) ++
+  (* h0 finishes its compaction *)
+  map (fun _ => Step 0 None) (seq 0 20).
+Example C04_ex :
+  let tr := trace_of (fun _ => 100) 50 c04_tabs [[AOpen; ACompactAll]; [AOpen; AAdd 7 false; ARead]] c04_sched in
+  c04_ok tr = true /\
+  existsb (fun e => match e with ERet 1 ARead (RView txs _) => list_nat_eqb txs [100; 101; 7]%nat | _ => false end) tr = true /\
+  existsb (fun e => match e with ERet 0 ACompactAll ROk => true | _ => false end) tr = true.
+Proof. vm_compute. auto. Qed.
